@@ -3,6 +3,7 @@
 # usage: tools/baseline_check.sh [repo_dir]   -> prints missing passes; exit 0 iff all 509 stable tests pass
 R=${1:-/repo}
 OUT=/tmp/baseline-$$.xml
+MARK=$(mktemp /tmp/baseline-mark-XXXXXX)
 ( cd "$R" && env -u ABTEM_VERIF PYTHONPATH="$R" /venv/bin/python -m pytest -ra -q -p no:cacheprovider --timeout=900 --continue-on-collection-errors -n ${NPROC:-8} --junitxml=$OUT >/tmp/baseline-$$.log 2>&1 )
 /venv/bin/python - "$OUT" <<'PY'
 import json, sys, xml.etree.ElementTree as ET
@@ -22,4 +23,7 @@ sys.exit(1 if missing else 0)
 PY
 RC=$?
 rm -f $OUT
+# the suite's own strategies leave abtem-test-<uuid>.zarr[.zip] stores in the temp dir
+find /tmp -maxdepth 1 -name "abtem-test-*" -newer "$MARK" -exec rm -rf {} + 2>/dev/null
+rm -f "$MARK"
 exit $RC
